@@ -19,6 +19,7 @@ where
 
     let some_target = Some(&target);
     let mut nearest = None;
+    let mut nearest_value: Option<V> = None;
 
     let mut first_value = f(0).await?;
     let mut first_value_ref = first_value.as_ref();
@@ -51,8 +52,10 @@ where
                 continue;
             }
 
-            if mid_value_ref <= some_target {
+            // Only ever improve the candidate: a later probe of an older element must not replace it
+            if mid_value_ref <= some_target && nearest_value.as_ref() < mid_value_ref {
                 nearest = Some(mid);
+                nearest_value = mid_value.clone();
             }
 
             if mid_value_ref == some_target {
@@ -84,8 +87,10 @@ where
         let value = f(mid).await?;
         let value_ref = value.as_ref();
 
-        if value_ref.is_some() && value_ref <= some_target {
+        // Only ever improve the candidate: a later probe of an older element must not replace it
+        if value_ref.is_some() && value_ref <= some_target && nearest_value.as_ref() < value_ref {
             nearest = Some(mid);
+            nearest_value = value.clone();
         }
 
         if value_ref == some_target {
